@@ -12,6 +12,7 @@ O4 get_instance gives a new unfitted object configured like the prototype
 O5 nothing observable depends on the content of uninitialised memory"""
 
 import copy
+import json
 
 import numpy as np
 import pandas as pd
@@ -501,7 +502,16 @@ def _execute(run, ctx, subj, kind, cls_short, pristine):
             out_l = _fit(live, subj, data, op['state'], p[0], op.get('pseed', 0), op.get('arm'),
                          tr_)
             twin = _fresh(subj)
-            out_t = _fit(twin, subj, data, op['state'], p[1], op.get('pseed', 0) + 1,
+            # "depends only on its constructor arguments and X": not on where the process-wide
+            # generator happens to stand either.  The fresh model is fitted under ANOTHER global
+            # state - unless the configuration itself asks for a random subsample while fitting
+            # (selection_sample_size, the kernel estimate's sample_size), where the global
+            # stream is an input by design
+            drawn_by_design = 'sample_size' in json.dumps(subj.get('ctor') or {})
+            state_t = op['state'] if drawn_by_design else op['state'] + 1
+            if not drawn_by_design:
+                ctx.faults['F5_other_global_state_for_fresh_fit'] += 1
+            out_t = _fit(twin, subj, data, state_t, p[1], op.get('pseed', 0) + 1,
                          op.get('arm'), tr_)
             if op.get('arm'):
                 ctx.faults['F2_plugin_failure_in_fit'] += 1
